@@ -17,7 +17,7 @@ EXPLANATION = (
     "force for every function of fast, medium, slow, huff, quick, rle, hash_calc, trees_tbl (and inftrees). Progress "
     "(Finish reaches stream end) and implicit bounds checks are not decided. "
     "GUARD/signed-offset: `block_start as usize` in any function that can run in an algorithm which reaches fill_window (the only unguarded subtraction from block_start) is used only under block_start >= 0 (dominating test or `(block_start >= 0).then_some(..)`). "
-    "ORDER/slide-rebase: fill_window clamps `insert` against strstart only after strstart was rebased. SIB/ref-conditions: the elementary conditions and calls of the zlib-ng functions this code was ported from (oracles/condparity.json, frozen from the vendored C sources) keep a counterpart in the paired zlib-rs function.")
+    "TAINT/api-int-arith: the state fields that an API setter stores from its integer parameters without any range test (deflateTune's four knobs, discovered from the program) never feed an overflow-checked add/sub/mul that is not dominated by a comparison of that value (D24: max_chain 0 underflowed longest_match's chain counter). ORDER/slide-rebase: fill_window clamps `insert` against strstart only after strstart was rebased. SIB/ref-conditions: the elementary conditions and calls of the zlib-ng functions this code was ported from (oracles/condparity.json, frozen from the vendored C sources) keep a counterpart in the paired zlib-rs function.")
 
 CLAIM = dict(
     text="Static: call-graph inventory of explicit abort constructs against a justified table; expression-shape guards on "
@@ -367,6 +367,8 @@ def run(ck):
     from .. import guards as _g
     _g.finished_early_return(ck, P)
     _g.prime_room(ck, P)
+    from .. import taint as _t
+    _t.api_int_arith(ck, P, roots)
     ck.floor("SIB/ref-conditions", condparity.check(ck, P, "SIB/ref-conditions", only={"deflate.c:lm_init", "deflate.c:deflateReset", "deflate.c:deflateResetKeep", "deflate_fast.c:deflate_fast", "deflate_slow.c:deflate_slow", "deflate_medium.c:deflate_medium", "deflate_medium.c:emit_match", "deflate_medium.c:insert_match", "deflate_medium.c:fizzle_matches", "deflate_quick.c:deflate_quick", "deflate_rle.c:deflate_rle", "deflate_huff.c:deflate_huff", "match_tpl.h:LONGEST_MATCH", "deflate.c:flush_pending", "deflate.c:read_buf", "deflate.c:deflate", "deflate_stored.c:deflate_stored", "deflate.c:fill_window"}), 50)
     guards(ck, P)
     signed_offsets(ck, P)
